@@ -45,6 +45,9 @@ def indicator_check(program, built, solver, prims, leaves, job):
         sol = None
         if not has_obj:
             sol = analysis.solve_under_pins(solver, prims, leaf)
+            if isinstance(sol, analysis.Raised):
+                out.append(analysis.raised_violation(program, leaf, sol))
+                sol = None
         for d in inds:
             ok = ref.indicator_values(view, d)
             if ok is None:
